@@ -17,12 +17,13 @@ import (
 )
 
 type addrStep struct {
-	addr string
-	pre  string // absent | stale | file | na : state of the filesystem path before the bind
-	path string // filesystem path concerned ("" if none)
-	must bool   // the generator knows that the endpoint, read per the property, is listenable
-	cmp  bool   // the listener's Addr().String() is expected to equal the endpoint text literally
-	kind string // generator class, for the histogram
+	addr      string
+	pre       string // absent | stale | file | na : state of the filesystem path before the bind
+	path      string // filesystem path concerned ("" if none)
+	viaListen bool   // serve with Listen(addr) instead of Bind(addr) + DoListen
+	must      bool   // the generator knows that the endpoint, read per the property, is listenable
+	cmp       bool   // the listener's Addr().String() is expected to equal the endpoint text literally
+	kind      string // generator class, for the histogram
 }
 
 type addrObs struct {
@@ -159,12 +160,46 @@ func runAddrStep(svc *varlink.Service, vendor string, s addrStep) (o addrObs) {
 	o = addrObs{afterBind: 2, afterShutdown: 2, reach: 2, clientClass: "-", servRet: "-"}
 	prepPath(s)
 	ctx := context.Background()
+	viaListen := s.viaListen
+	done := make(chan error, 1)
 	func() {
 		defer func() {
 			if r := recover(); r != nil {
 				o.class = "panic"
 			}
 		}()
+		if viaListen {
+			// Listen binds by itself: either it returns the bind error at once or it starts serving
+			go func() {
+				defer func() {
+					if r := recover(); r != nil {
+						done <- fmt.Errorf("verif-panic")
+					}
+				}()
+				done <- svc.Listen(ctx, s.addr, 0)
+			}()
+			for t := 0; t < 3000; t++ {
+				select {
+				case err := <-done:
+					if err == nil {
+						o.class = "listenerr" // returned nil without having served: treated like a failed bind
+					} else if err.Error() == "verif-panic" {
+						o.class = "panic"
+					} else {
+						o.class = classifyBindErr(err)
+					}
+					return
+				default:
+				}
+				if running, _, _, _ := svc.VerifState(); running {
+					o.class = "ok"
+					return
+				}
+				time.Sleep(time.Millisecond)
+			}
+			o.class = "hang"
+			return
+		}
 		err := svc.Bind(ctx, s.addr)
 		if err != nil {
 			o.class = classifyBindErr(err)
@@ -197,8 +232,9 @@ func runAddrStep(svc *varlink.Service, vendor string, s addrStep) (o addrObs) {
 		o.network, o.laddr = l.Addr().Network(), l.Addr().String()
 	}
 	o.afterBind = pathState(s.path)
-	done := make(chan error, 1)
-	go func() { done <- svc.DoListen(ctx, 0) }()
+	if !viaListen {
+		go func() { done <- svc.DoListen(ctx, 0) }()
+	}
 	// wait until the accept loop has started: a Shutdown that overtakes the start of serving is a
 	// different history (the serving call may then return the accept error), not what is observed here
 	for t := 0; t < 2000; t++ {
@@ -274,7 +310,9 @@ func init() {
 			n := 1 + g.Intn(3)
 			steps := make([]addrStep, 0, n+1)
 			for k := 0; k < n; k++ {
-				steps = append(steps, g.addrStep(dir, uniq, k))
+				st := g.addrStep(dir, uniq, k)
+				st.viaListen = g.Chance(2, 5)
+				steps = append(steps, st)
 			}
 			// whatever happened before, the service must still be able to bind
 			steps = append(steps, addrStep{addr: fmt.Sprintf("unix:@verif-%s-final", uniq), pre: "na", must: true, cmp: true, kind: "final-abstract"})
